@@ -13,6 +13,9 @@ use dashu_base::ExtendedGcd;
 
 mod lehmer;
 
+#[cfg(dashu_verif)]
+pub(crate) use lehmer::verif as lehmer_verif;
+
 /// Greatest common divisor for two multi-digit integers
 ///
 /// This function assumes lhs > rhs.
